@@ -4,9 +4,13 @@ Bounded fetch (items at the end of this file): the real `_fetch_with_probe` / `_
 `_request_following_redirects` / `_read_response_body` coroutines are driven without an event loop
 against a scripted in-memory origin whose behaviour is symbolic (HEAD ok or refused, declared
 Content-Length absent / smaller / larger than what the GET delivers, chunk size, HEAD and GET
-redirect chains, one validator-rejected redirect target): the client never pulls more than
-max_fetch_bytes + one chunk, returns exactly the object or fails, follows at most max_redirects
-redirects and never contacts a rejected URL.  Replay = the same scenario under asyncio.run.
+redirect chains, one validator-rejected redirect target, refused / failing statuses): once more than
+max_fetch_bytes have arrived the client starts no further read (cap + one bounded chunk), it returns
+exactly the object or fails, follows at most max_redirects redirects, never contacts a rejected URL,
+and the text of whatever it raises names no userinfo, query string or fragment of the object's URL or
+of a redirect target.  Replay = un-stubbed: the public ``fetch_url`` (real aiohttp, real sockets, the
+library's own event-loop thread) against a real HTTP origin on loopback that behaves like the
+counterexample's; it also looks at the library's log records.
 
 Redaction half — fetch errors never contain URL userinfo, query strings or fragments.
 
@@ -46,11 +50,13 @@ BOUNDS = (
 )
 OUTSIDE = (
     "the parallel range path and hedging (_fetch_chunks_with_hedging needs a running event loop: asyncio.wait/tasks), the pre-signed Range-probe path, "
-    "decompression caps (codec contract, see C18), real aiohttp/sockets, log records; objects > 16 bytes in the scripted origin; percent-encoded secrets ('%' excluded: "
+    "decompression caps (codec contract, see C18), real aiohttp/sockets and log records (looked at only when a counterexample is replayed); objects > 16 bytes in the scripted origin; "
+    "how large the client's own read size is (any finite n is 'a bounded chunk'; reading without a limit is not); percent-encoded secrets ('%' excluded: "
     "urllib's unquote goes through `re`); non-ASCII; validators whose message embeds a *transformed* URL; longer parts than stated"
 )
 ASSUMPTIONS = [
-    "scripted origin := in-memory aiohttp.ClientSession stand-in (head/get coroutines, response.status/headers/content.iter_chunked/content.read/read/release); "
+    "scripted origin := in-memory aiohttp.ClientSession stand-in (head/get coroutines, response.status/headers/content.iter_chunked/iter_any/read(n)/readany/read()/release); "
+    "a bounded read(n) gets up to n bytes in one piece, iter_chunked(n) / an unlimited read get the body in the origin's pieces; anything else raises HarnessModelError; "
     "every await completes immediately, so the coroutine is driven with send(None); an await that really suspends makes the item INCONCLUSIVE",
     "sx string model: ASCII char arrays with z3 Int code points (harness/_sx.py); validated each run against real str and, through the real redact_url/_validate_url, on random concrete URLs",
     "redact_url and _validate_url contain f-strings / str(exc): they are run from their live source with JoinedStr desugared to concatenation and str(x) -> identity on symbolic strings (sx.load); urllib.parse runs as the same bytecode",
@@ -557,10 +563,15 @@ class _Cfg:
 def _force(obj, name: str):  # noqa: ANN001, ANN201
     """A scenario value or a thunk of it: evaluated (and, for the solver, case-split) only on paths that look at it."""
     v = obj.__dict__[name]
-    if callable(v):
-        v = v()
+    if isinstance(v, _Thunk):  # (never callable(): asking that of a symbolic int makes CrossHair fork on its type)
+        v = v.fn()
         obj.__dict__[name] = v
     return v
+
+
+class _Thunk:
+    def __init__(self, fn) -> None:  # noqa: ANN001
+        self.fn = fn
 
 
 class _Scenario(dict):
@@ -568,16 +579,16 @@ class _Scenario(dict):
 
     def __getitem__(self, key: str):  # noqa: ANN204
         v = dict.__getitem__(self, key)
-        if callable(v):
-            v = v()
+        if isinstance(v, _Thunk):
+            v = v.fn()
             dict.__setitem__(self, key, v)
         return v
 
     def get(self, key: str, default=None):  # noqa: ANN001, ANN201
         return self[key] if key in self else default
 
-    def lazy(self, key: str):  # noqa: ANN201
-        return lambda: self[key]
+    def lazy(self, key: str) -> _Thunk:
+        return _Thunk(lambda: self[key])
 
 
 def _fetch_scenario(a: dict):  # noqa: ANN201
@@ -609,7 +620,8 @@ def _fetch_verdict(a: dict) -> str | None:
     # "never reads more than max_fetch_bytes plus a bounded chunk": the piece during which the cap is crossed is
     # the bounded chunk (the origin's piece for iter_chunked / an unbounded read, the client's own n for read(n));
     # any byte of a piece that starts after more than max_fetch_bytes have already arrived is too much
-    if origin.late > 0:
+    only_text = a.get("only_text", False)  # the error-text items judge texts only (the other clauses have their own items / signatures)
+    if not only_text and origin.late > 0:
         return (f"pulled {origin.pulled} body bytes from the origin with max_fetch_bytes={a['cap']} (origin pieces of {a['chunk']}"
                 f"{', body read without a size limit' if origin.unbounded_reads else ''}): {origin.late} of them in reads that began after the cap had already been exceeded")
     if err is not None and a.get("check_text", True):
@@ -617,6 +629,8 @@ def _fetch_verdict(a: dict) -> str | None:
             for secret in _URL_SECRETS:
                 if secret in text:
                     return f"the fetch failed with {type(err).__name__} whose text contains {secret!r} (URL userinfo / query string / fragment): {text[:200]!r}"
+    if only_text:
+        return None
     for method, hop in origin.requested:
         if hop == a["bad_hop"]:
             return f"sent {method} to redirect target #{hop}, which the url_validator rejects"
@@ -764,12 +778,12 @@ def _real_fetch(a: dict, body: bytes, cap: int):  # noqa: ANN201
 
 def _real_facts(a: dict, data, err, log: list, records: list, body: bytes, cap: int) -> str | None:  # noqa: ANN001
     """Property-level judgement of one real fetch (everything except the amount read)."""
-    for method, hop in log:
+    for method, hop in ([] if a.get("only_text") else log):
         if hop == a["bad_hop"]:
             return f"the real origin received {method} for redirect target #{hop}, which the url_validator rejects (requests seen: {log})"
         if hop > a["max_redirects"]:
             return f"the real origin was followed through {hop} redirects with max_redirects={a['max_redirects']} (requests seen: {log})"
-    if err is None:
+    if err is None and not a.get("only_text"):
         if data != body:
             return f"fetch_url returned {len(data)} bytes that are not the object's {len(body)} bytes"
         if len(body) > cap:
@@ -789,7 +803,7 @@ def _replay_fetch(a: dict) -> str | None:
     Run 2 — only when the origin delivers more than max_fetch_bytes — is the same scenario with the sizes scaled up
     (same order between declared / cap / delivered) so that 'kept reading' is measurable through socket buffers:
     the origin over-delivers by 48 MiB and counts what the client let it write."""
-    if "head_status_i" in a:  # arguments of fetch_errors_never_name_url_secrets
+    if "head_status_i" in a:  # arguments of status_and_size_errors_never_name_url_secrets
         a = {**a, "head_status": _STATUSES[1 + a["head_status_i"]], "get_status": _STATUSES[a["get_status_i"]], "cap": 1 if a["over_cap"] else 8}
     a = {**_REAL_DEFAULTS, **a}
     body = bytes((i * 7 + 1) % 251 for i in range(a["delivered"]))
@@ -797,7 +811,7 @@ def _replay_fetch(a: dict) -> str | None:
     why = _real_facts(a, data, err, log, records, body, a["cap"])
     if why:
         return why
-    if a["delivered"] <= a["cap"] or a["get_status"] != 200:
+    if a["delivered"] <= a["cap"] or a["get_status"] != 200 or a.get("only_text"):
         return None
     unit = 64 * 1024
     cap2 = a["cap"] * unit
@@ -845,29 +859,46 @@ def redirects_are_bounded_and_validated(head_ok: bool, head_hops: int, get_hops:
     return _fetch_verdict(a) is None
 
 
-_STATUSES = (200, 403, 404, 500)  # 2xx | refused-but-GET-may-work (like 405, 501) | client error | server error
+# 2xx | refused-but-GET-may-work (like 405, 501) | [client error] | server error
+_STATUSES = pick((200, 403, 500), (200, 403, 404, 500))
 
 
-@cond(q=90, t=300, encoded=_F_ENC + [xf._validate_url, xf._raise_for_status_redacted, xf.redact_url], stubs=_F_STUBS,
-      bound="object URL with userinfo, query string and fragment; HEAD answered 200 or refused with any of %s, final GET status any of %s, HEAD / GET redirect chains of 0..1 hops "
-            "(relative Locations carrying their own query string), max_redirects 0..1, url_validator rejecting none or one of targets 0..1 with a message that does or does not quote the URL, "
-            "object of 2 bytes with max_fetch_bytes 1 or 8" % (_STATUSES, _STATUSES),
-      replay=_replay_fetch, signature=lambda a, c: "C31:fetch:error-text-leaks-url-secret")
-def fetch_errors_never_name_url_secrets(head_ok: bool, head_status_i: int, get_status_i: int, head_hops: int, get_hops: int, max_redirects: int,
-                                        bad_hop: int, embeds: bool, over_cap: bool) -> bool:
+_T_ENC = _F_ENC + [xf._validate_url, xf._raise_for_status_redacted, xf.redact_url]
+# Error texts, decided in two families (they are independent code: redirect / validator messages come from
+# _request_following_redirects + _validate_url, status / size messages from _raise_for_status_redacted, the probe
+# guard and _read_response_body).  Every number is made concrete per path (it ends up inside an error text: a
+# symbolic text would turn each 'secret in text' into a string-solver query) and lazily (a value is case-split
+# only on the paths that look at it).  Hop counts / the rejected target are only compared.
+
+
+@cond(q=60, t=200, encoded=_T_ENC, stubs=_F_STUBS,
+      bound="object URL with userinfo, query string and fragment; HEAD answered 200 or 403; HEAD / GET redirect chains of 0..1 / 0..2 hops (relative Locations carrying their own "
+            "query string), max_redirects 0..1, url_validator rejecting none or one of targets 0..2 with a message that does or does not quote the URL; honest 2-byte object",
+      replay=lambda a: _replay_fetch({**a, "only_text": True}), signature=lambda a, c: "C31:fetch:error-text-leaks-url-secret")
+def redirect_and_validator_errors_never_name_url_secrets(head_ok: bool, head_hops: int, get_hops: int, max_redirects: int, bad_hop: int, embeds: bool) -> bool:
     """
-    pre: 0 <= head_status_i < len(_STATUSES) - 1 and 0 <= get_status_i < len(_STATUSES)
-    pre: 0 <= head_hops <= 1 and 0 <= get_hops <= 1 and 0 <= max_redirects <= 1 and -1 <= bad_hop <= 1
+    pre: 0 <= head_hops <= 1 and 0 <= get_hops <= 2 and 0 <= max_redirects <= 1 and -1 <= bad_hop <= 2
     post: _
     """
-    # every number is made concrete per path (they end up inside error texts: a symbolic text would turn each
-    # 'secret in text' into a string-solver query)
-    # ... and lazily: a value is case-split only on the paths that look at it (the GET status only when the final GET
-    # is answered, the cap only when a size is compared, ...).  Hop counts / the rejected target are only compared.
-    a = _Scenario({"head_ok": head_ok, "has_cl": True, "declared": 2, "delivered": 2, "chunk": 2, "cap": lambda: 1 if over_cap else 8,
-                   "head_hops": head_hops, "get_hops": get_hops, "max_redirects": lambda: _conc(max_redirects, 0, 1),
-                   "bad_hop": bad_hop, "embeds": lambda: bool(embeds),
-                   "head_status": lambda: _STATUSES[1 + _conc(head_status_i, 0, 2)], "get_status": lambda: _STATUSES[_conc(get_status_i, 0, 3)]})
+    a = _Scenario({"head_ok": head_ok, "has_cl": True, "declared": 2, "delivered": 2, "chunk": 2, "cap": 8,
+                   "head_hops": head_hops, "get_hops": get_hops, "max_redirects": _Thunk(lambda: _conc(max_redirects, 0, 1)),
+                   "bad_hop": bad_hop, "embeds": _Thunk(lambda: bool(embeds)), "head_status": 403, "get_status": 200, "only_text": True})
+    return _fetch_verdict(a) is None
+
+
+@cond(q=60, t=200, encoded=_T_ENC, stubs=_F_STUBS,
+      bound="object URL with userinfo, query string and fragment; no redirects; HEAD answered 200 (declaring 2 bytes) or refused with any of %s, final GET status any of %s, "
+            "object of 2 bytes with max_fetch_bytes 1 or 8" % (_STATUSES[1:], _STATUSES),
+      replay=lambda a: _replay_fetch({**a, "only_text": True}), signature=lambda a, c: "C31:fetch:error-text-leaks-url-secret")
+def status_and_size_errors_never_name_url_secrets(head_ok: bool, head_status_i: int, get_status_i: int, over_cap: bool) -> bool:
+    """
+    pre: 0 <= head_status_i < len(_STATUSES) - 1 and 0 <= get_status_i < len(_STATUSES)
+    post: _
+    """
+    a = _Scenario({"head_ok": head_ok, "has_cl": True, "declared": 2, "delivered": 2, "chunk": 2, "cap": _Thunk(lambda: 1 if over_cap else 8),
+                   "head_hops": 0, "get_hops": 0, "max_redirects": 1, "bad_hop": -1, "embeds": False,
+                   "head_status": _Thunk(lambda: _STATUSES[1 + _conc(head_status_i, 0, len(_STATUSES) - 2)]),
+                   "get_status": _Thunk(lambda: _STATUSES[_conc(get_status_i, 0, len(_STATUSES) - 1)]), "only_text": True})
     return _fetch_verdict(a) is None
 
 
